@@ -181,6 +181,9 @@ func Redirect(name string, fn any) {}
 func OnSync(fn func(kind string))  {}
 func OnBlock(fn func(what string)) {}
 
+// LocksHeld: number of mutexes the current (model) thread holds; 0 natively. INTERCEPTED.
+func LocksHeld() int { return 0 }
+
 // Freeze marks everything reachable from the given roots as shared state:
 // an unlocked store into it afterwards is reported. INTERCEPTED.
 func Freeze(roots ...any) {}
